@@ -127,7 +127,7 @@ class Driver(SystemWideDevice):
         if pulse_power is None:
             pulse_power = self.config['default_pulse_power'] if self.config['default_pulse_power'] is not None else 1.0
 
-        if pulse_power and 0 > pulse_power > 1:
+        if not 0 <= pulse_power <= 1:
             raise AssertionError("Pulse power has to be between 0 and 1 but is {}".format(pulse_power))
 
         max_pulse_power = 0
